@@ -59,7 +59,9 @@ def op_strategy():
     grace = st.sampled_from([0, None, 3600, "default"])
     build = st.one_of(
         st.tuples(st.just("commit"), st.integers(-1, 6), st.integers(0, 5), st.sampled_from(["loose", "loose", "pack"]),
-                  st.sampled_from(["b0", "b0", "b1", "b2", "dangling", "dangling", "detach"])),
+                  st.sampled_from(["b0", "b0", "b1", "b2", "dangling", "dangling", "detach"]),
+                  # gitlink in the tree: none / a foreign commit id / a commit of this repository's own history
+                  st.sampled_from([-2, -2, -2, -1, 0, 1, 2, 3])),
         st.tuples(st.just("tag"), st.sampled_from(["commit", "tree", "blob", "tag"]), st.integers(0, 6), st.sampled_from(["light", "annot"]), st.integers(0, 2),
                   st.sampled_from(["loose", "pack"])),
         st.tuples(st.just("del_ref"), st.integers(0, 5)),
@@ -84,6 +86,8 @@ def op_strategy():
         [("commit", -1, 0, "loose", "b0"), ("commit", 0, 1, "pack", "dangling"), ("commit", 1, 2, "loose", "b0"), ("tag", "commit", 0, "annot", 0, "loose")],
         [("commit", -1, 0, "pack", "b0"), ("commit", 0, 0, "pack", "b1"), ("commit", 1, 1, "loose", "dangling"), ("tag", "tree", 0, "annot", 1, "pack"), ("age", "all"),
          ("commit", 2, 3, "loose", "dangling")],
+        [("commit", -1, 0, "loose", "b0", -2), ("commit", 0, 1, "loose", "b0", -2), ("commit", 1, 2, "loose", "b0", -2), ("commit", 2, 3, "loose", "b0", 0),
+         ("commit", 3, 4, "pack", "b0", 1), ("age", "all")],
     ])
     return st.tuples(preamble, st.lists(st.one_of(build, maint, maint), min_size=2, max_size=18)).map(lambda t: list(t[0]) + t[1])
 
@@ -156,7 +160,8 @@ class Machine:
         k = op[0]
         r = self.repo
         if k == "commit":
-            _, p, variant, how, where = op
+            _, p, variant, how, where = op[:5]
+            gl = op[5] if len(op) > 5 else -2
             self.n += 1
             shared = Blob.from_string(b"shared %d\n" % (variant % 3))
             unique = Blob.from_string(b"unique %d\n" % self.n)
@@ -165,6 +170,12 @@ class Machine:
             t = Tree()
             t.add(b"shared", 0o100644, shared.id)
             t.add(b"u", 0o100644, unique.id)
+            if gl != -2:
+                # a submodule entry names a commit; it is not part of this repository's closure even when the id
+                # happens to be one of its own commits (a project vendoring an older revision of itself)
+                target = (b"%040x" % (0xABCDEF00 + self.n)) if gl == -1 else self.sel(self.commits, gl)
+                if target:
+                    (sub if variant % 2 else t).add(b"gitlink", 0o160000, target)
             t.add(b"dir", 0o040000, sub.id)
             par = self.sel(self.commits, p) if p >= 0 else None
             parents = [par] if par else []
